@@ -18,6 +18,20 @@ CLAIMED = {
             "reported containment implies point-set inclusion (all four type pairs, all corner orderings).",
             "Floats modelled as reals; math.hypot replaced by its contract (h>=0, h*h=a*a+b*b) encoded "
             "polynomially; z3 4.x/5.x soundness; non-finite parameters outside the claim."),
+    "C12": ("DESIGN.md 9/C12",
+            TECH + "one inductive step of the real API handlers from an arbitrary registry; the witness point is a solver variable (QF_NRA)",
+            "Bounded symbolic model checking, inductive step: from an arbitrary registry of up to R regions (either type, "
+            "arbitrary real geometry, distinct ids, ids may be falsy) with print active and shrinking disallowed, ONE request "
+            "with arbitrary command/type/id/geometry is executed by the real on_api_command; z3 proves for every point that "
+            "excluded-before implies excluded-after, that deletes are refused and that refused requests change nothing.",
+            "Floats as reals; hypot contract; OctoPrint injections (current_user, jsonify, settings, plugin manager, logger) "
+            "stubbed; R<=2 quick / 3 thorough regions; sequences follow by induction over the step (invariant: ids distinct, from C13)."),
+    "C13": ("DESIGN.md 9/C13",
+            TECH + "one inductive step (API request or event) from an arbitrary registry, exhaustive over the request alphabet",
+            "Bounded symbolic model checking, inductive step over requests and events: ids stay unique (uuid stub may collide), "
+            "rejected/anonymous requests leave the GET response unchanged and send nothing, every change of the list is "
+            "followed by exactly one notification whose payload equals the GET response in order.",
+            "Same stubs as C12; observations only through on_api_command / on_api_get / send_plugin_message; R<=2 quick / 3 thorough."),
 }
 
 NOT_YET = {}
